@@ -8,6 +8,7 @@ import ast
 
 from .model import is_self_attr, method_name
 from .report import norm_src
+from .symx import safe_simplify
 
 _OPS = {ast.GtE: ">=", ast.Gt: ">", ast.LtE: "<=", ast.Lt: "<"}
 _FLIP = {">=": "<=", ">": "<", "<=": ">=", "<": ">"}
@@ -331,4 +332,4 @@ def assignments_outside(fn, var, fold):
 def running_mean_shape(store_value, M, n, r):
     """Is sympy `store_value` == (M*n + r)/(n + 1)?"""
     import sympy as sp
-    return sp.simplify(store_value - (M * n + r) / (n + 1)) == 0
+    return safe_simplify(store_value - (M * n + r) / (n + 1)) == 0
